@@ -5,9 +5,11 @@ EmitScn == (Bound /\ Len(hist) = MaxOps) =>
 E2 == {"e1", "e2"}
 M2 == {"m1", "m2"}
 Rq(m, i, p) == [m |-> m, id |-> i, params |-> p]
-AddOps == {[op |-> "add", e |-> "e1", m |-> m, kind |-> k, once |-> o] : m \in M2, k \in {"result", "error", "callback"}, o \in BOOLEAN}
-          \cup {[op |-> "add", e |-> "e2", m |-> "m1", kind |-> "result", once |-> TRUE]}
+AddOps == {[op |-> "add", e |-> "e1", m |-> m, kind |-> k, once |-> o, twin |-> FALSE] : m \in M2, k \in {"result", "error", "callback"}, o \in BOOLEAN}
+          \cup {[op |-> "add", e |-> "e2", m |-> "m1", kind |-> "result", once |-> TRUE, twin |-> FALSE]}
+          \cup {[op |-> "add", e |-> "e1", m |-> "m1", kind |-> "result", once |-> o, twin |-> TRUE] : o \in BOOLEAN}
 ReplaceOps == {[op |-> "replace", e |-> "e1", m |-> m, idx |-> i, kind |-> "result", once |-> o] : m \in M2, i \in {0, 1}, o \in BOOLEAN}
+              \cup {[op |-> "replace", e |-> "e1", m |-> "m1", idx |-> i, kind |-> "error", once |-> FALSE] : i \in {-1, -2}}
               \cup {[op |-> "replace", e |-> "e2", m |-> "m1", idx |-> 0, kind |-> "error", once |-> FALSE]}
 RemoveOps == {[op |-> "remove", e |-> "e1", m |-> m] : m \in {"all", "m1", "m2"}} \cup {[op |-> "remove", e |-> "e2", m |-> "all"]}
 ResetOps == {[op |-> "reset"]}
@@ -17,8 +19,8 @@ CallOps == {[op |-> "call", e |-> e, shape |-> "single", reqs |-> <<Rq(m, i, "po
                  [op |-> "call", e |-> "e1", shape |-> "batch", reqs |-> <<Rq("m1", "i1", "pos"), Rq("m1", "i2", "pos"), Rq("m1", "i3", "pos")>>],
                  [op |-> "call", e |-> "e2", shape |-> "batch", reqs |-> <<Rq("m1", "i1", "pos"), Rq("m2", "i0", "pos")>>]}
 OpsAll == AddOps \cup ReplaceOps \cup RemoveOps \cup ResetOps \cup CallOps
-OpsSmall == {[op |-> "add", e |-> "e1", m |-> "m1", kind |-> k, once |-> o] : k \in {"result", "callback"}, o \in BOOLEAN}
-            \cup {[op |-> "add", e |-> "e1", m |-> "m2", kind |-> "error", once |-> FALSE],
+OpsSmall == {[op |-> "add", e |-> "e1", m |-> "m1", kind |-> k, once |-> o, twin |-> FALSE] : k \in {"result", "callback"}, o \in BOOLEAN}
+            \cup {[op |-> "add", e |-> "e1", m |-> "m2", kind |-> "error", once |-> FALSE, twin |-> FALSE],
                   [op |-> "replace", e |-> "e1", m |-> "m1", idx |-> 1, kind |-> "result", once |-> TRUE],
                   [op |-> "replace", e |-> "e2", m |-> "m1", idx |-> 0, kind |-> "error", once |-> FALSE],
                   [op |-> "remove", e |-> "e1", m |-> "m1"], [op |-> "remove", e |-> "e1", m |-> "m2"], [op |-> "remove", e |-> "e2", m |-> "all"], [op |-> "reset"],
@@ -26,4 +28,10 @@ OpsSmall == {[op |-> "add", e |-> "e1", m |-> "m1", kind |-> k, once |-> o] : k 
                   [op |-> "call", e |-> "e1", shape |-> "single", reqs |-> <<Rq("m2", "i1", "named")>>],
                   [op |-> "call", e |-> "e2", shape |-> "single", reqs |-> <<Rq("m1", "s_empty", "pos")>>],
                   [op |-> "call", e |-> "e1", shape |-> "batch", reqs |-> <<Rq("m1", "i1", "pos"), Rq("m1", "i0", "named"), Rq("m2", "s_empty", "pos")>>]}
+\* identically configured once-patches followed by a different patch, then calls: all histories of length 6 over three operations,
+\* and replacement at a negative index among several patches
+OpsTwins == {[op |-> "add", e |-> "e1", m |-> "m1", kind |-> "result", once |-> TRUE, twin |-> TRUE],
+             [op |-> "add", e |-> "e1", m |-> "m1", kind |-> "error", once |-> FALSE, twin |-> FALSE],
+             [op |-> "replace", e |-> "e1", m |-> "m1", idx |-> -1, kind |-> "callback", once |-> FALSE],
+             [op |-> "call", e |-> "e1", shape |-> "single", reqs |-> <<Rq("m1", "i1", "pos")>>]}
 =============================================================================
